@@ -1,4 +1,4 @@
-"""C20 — repeater storage keeps one record per source address with a stable identity (DESIGN §5 C20).
+"""C20 - repeater storage keeps one record per source address with a stable identity (DESIGN par. 5 C20).
 
 Real code: okdmr.dmrlib.storage.{repeater_storage,repeater} run in-process; `uuid.uuid4` as seen by
 repeater.py is replaced by a deterministic counter (monkey-patched in this process only).
@@ -11,9 +11,9 @@ Streams (all deterministic from ctx.rng):
            families of every key; pair histories, a sweep over the whole universe on one record, random cluster histories
   values   special values (white space, NUL, Unicode forms, huge ints, long strings); values outside the model's
            alphabet (negative ints, floats, bytes, lists) oracle-only
-  addrs    incoming addresses that collide under a normalisation (leading zeros, case, white space, port mod 65536 …)
+  addrs    incoming addresses that collide under a normalisation (leading zeros, case, white space, port mod 65536 ...)
   wide     one record with hundreds of attributes, one patch with hundreds of entries, long values
-  scale    thousands of records (distinct IPs / one IP many ports / mixed, identified fraction 0 … 1): len, identity,
+  scale    thousands of records (distinct IPs / one IP many ports / mixed, identified fraction 0 ... 1): len, identity,
            ids, members and attributes of old / middle / new records, re-lookups of the oldest ones
 """
 import importlib
@@ -98,6 +98,20 @@ def cpatch(p: dict) -> str:
 # the system under test with the counter oracle
 
 
+def fresh(v):
+    """an equal value that is a different object where Python allows it (a lookup must compare by value: the peers'
+    address tuples are new objects on every datagram)"""
+    if isinstance(v, tuple):
+        return tuple(fresh(x) for x in v)
+    if isinstance(v, str) and len(v) > 1:
+        return "".join(list(v))
+    if type(v) is int and abs(v) > 256:
+        return int(str(v))
+    if isinstance(v, _uuid.UUID):
+        return _uuid.UUID(int=v.int)
+    return v
+
+
 class Sut:
     """one RepeaterStorage + the list of objects it created, by creation index"""
 
@@ -172,7 +186,7 @@ class Sut:
             if kind == "mi":
                 _, a, auto, p = op
                 line = f"mi {cval(a)} {int(auto)} {cpatch(p)}"
-                r = st.match_incoming(a, auto, dict(p))
+                r = st.match_incoming(fresh(a), auto, dict(p))
             elif kind == "save":
                 _, ref, p = op
                 line = f"save {'N' if ref is None else ref} {cpatch(p)}"
@@ -180,23 +194,23 @@ class Sut:
             elif kind == "ma":
                 _, name, v = op
                 line = f"ma {ckey(name)} {cval(v)}"
-                r = st.match_attr(name, v)
+                r = st.match_attr(fresh(name), fresh(v))
             elif kind == "mip":
                 _, ip = op
                 line = f"mip {cps(ip) if ip else '-'}"
-                r = st.match_ip_incoming(ip)
+                r = st.match_ip_incoming(fresh(ip))
             elif kind == "mu":
                 _, v = op
                 line = f"mu {cval(v)}"
-                r = st.match_uuid(v)
+                r = st.match_uuid(fresh(v))
             elif kind == "attr":
                 _, ref, k, v = op
                 line = f"attr {ref} {ckey(k)} {cval(v)}"
-                r = self.created[ref].attr(k, v)
+                r = self.created[ref].attr(fresh(k), v)
             elif kind == "del":
                 _, ref, k = op
                 line = f"del {ref} {ckey(k)}"
-                r = self.created[ref].delete_attr(k)
+                r = self.created[ref].delete_attr(fresh(k))
             elif kind == "patch":
                 _, ref, p = op
                 line = f"patch {ref} {cpatch(p)}"
@@ -261,6 +275,25 @@ def same(a, b) -> bool:
     return a == b and type(a) is type(b)
 
 
+def describe_difference(exp, act, diff):
+    """only the members / attributes that differ, per record: (expected text, actual text)"""
+    e_out, a_out = [], []
+    for i in diff[:4]:
+        if i >= len(exp) or i >= len(act):
+            e_out.append(f"record {i}: {'present' if i < len(exp) else 'absent'}")
+            a_out.append(f"record {i}: {'present' if i < len(act) else 'absent'}")
+            continue
+        (ef, ea), (af, aa) = exp[i], act[i]
+        ks = [("member", k) for k in ef if ef[k] != af.get(k)] + [("attribute", k) for k in list(dict.fromkeys(list(ea) + list(aa))) if k not in ea or k not in aa or ea[k] != aa[k]]
+        for what, k in ks[:6]:
+            e, a = (ef, af) if what == "member" else (ea, aa)
+            e_out.append(f"record {i} {what} {k!r}: {e[k]!r}" if k in e else f"record {i} {what} {k!r}: not set")
+            a_out.append(f"record {i} {what} {k!r}: {a[k]!r}" if k in a else f"record {i} {what} {k!r}: not set")
+        if len(ks) > 6:
+            e_out.append(f"... {len(ks) - 6} more")
+    return "; ".join(e_out)[:600], "; ".join(a_out)[:600]
+
+
 class Sink:
     """collects the verdicts of an oracle instead of reporting them (replay; long histories whose failures are first
     reduced to short ones)"""
@@ -274,6 +307,9 @@ class Sink:
 
     def count(self, key, n=1):
         self.hist[key] = self.hist.get(key, 0) + n
+
+    def case(self, *a, **k):
+        pass
 
 
 class Oracle:
@@ -407,7 +443,8 @@ class Oracle:
                             for nk in named_keys(op):
                                 if nk != k:
                                     self.suspects.append((nk, k))
-            self.fail("patch-not-local", f"{op[0]}: records {diff[:8]} differ from 'exactly the named fields of the matched record changed'", expected=str([exp[i] for i in diff if i < len(exp)])[:400], actual=str([snap1[i] for i in diff if i < len(snap1)])[:400])
+            e_txt, a_txt = describe_difference(exp, snap1, diff)
+            self.fail("patch-not-local", f"{op[0]}: records {diff[:8]} differ from 'exactly the named fields of the matched record changed'", expected=e_txt, actual=a_txt)
         # ---- the same through the public API: attr(key) of every record for every key in play
         while len(self.exp_attrs) < len(sut.created):
             self.exp_attrs.append({})
@@ -455,11 +492,9 @@ class Oracle:
     def finish(self, probe=()):
         """end of the history: every watched key and the given never-written siblings of every record, and every
         handed-out record once more by its address"""
-        self.n = max(self.n - 1, 0)  # failures reported here belong to the whole history
         for k in probe:
             self._watch(k)
         self.readback(None)
-        self.n += 1
 
 
 # ------------------------------------------------------------------------------------------------
@@ -530,7 +565,7 @@ CROSS_ALPHABET = [
 
 
 def violates_pre(sut, op):
-    """the two preconditions of the theorems (DESIGN §5 C20), evaluated on the real state"""
+    """the two preconditions of the theorems (DESIGN par. 5 C20), evaluated on the real state"""
     p = patch_of(op)
     if op[0] == "save" and op[1] is None:
         return False  # nothing is patched: raises (non-empty patch) or returns None
@@ -574,6 +609,7 @@ def modelled(op) -> bool:
 def run_sequence(ctx, ops, pairs, stream, dump_every=0, watch=(), probe=(), tag=None, oracle_ctx=None):
     """runs one history on a fresh storage; returns False if it was inapplicable / left the preconditions.
     `pairs` None: oracle only.  Returns the oracle (truthy) for stream 'ok'."""
+    enough(ctx)
     sut = Sut()
     try:
         history = []
@@ -667,10 +703,10 @@ STATIC_KEYS = [
     "firmware",
     "k",
     "m",
-    "café",  # composed / decomposed / compatibility forms exist
-    "ﬁrmware",
-    "Ångström",
-    "straße",
+    "caf\xe9",  # composed / decomposed / compatibility forms exist
+    "\ufb01rmware",
+    "\u212bngstr\xf6m",
+    "stra\xdfe",
     "10",
     "0",
 ]
@@ -681,13 +717,13 @@ KEY_FAMILIES = [
     ["1.3.6.1.4.1.40297.1.2.4.10.0", "1.3.6.1.4.1.40297.1.2.4.1.0", "1.3.6.1.4.1.40297.1.2.4.1", "1.3.6.1.4.1.40297.1.2.1.2.10.0", "1.3.6.1.4.1.40297.1.2.1.2.1.0"],
     ["rx_freq", "RX_FREQ", "Rx_Freq", "rx-freq", "rxfreq", "rx_freq ", " rx_freq", "rx_freq\t", "rx_freq\n"],  # case / separators / whitespace
     ["key", "key2", "ke", "keykey", "key_", "_key", "__key", "key__", "_Repeater__key"],  # prefixes, name mangling look-alikes
-    ["é", "é", "É", "É", "e", "ｋ", "k​", "K"],  # NFC/NFD, width, zero width, Kelvin sign
+    ["\xe9", "e\u0301", "E\u0301", "\xc9", "e", "\uff4b", "k\u200b", "\u212a"],  # NFC/NFD, width, zero width, Kelvin sign
     ["0", "00", "0.0", ".0", "+0", "-0", "0x0", "", "None", "False"],  # numeric / empty / literal look-alikes
     ["a=b", "a,b", "a b", "a%3Db", "a;b", "a|b", "a\\b", "a/b"],  # separators of the harness' own line protocol
 ]
 
-WS = [" ", "\t", "\n", "\r\n", "\x0b", "\x0c", "\x1c", "\x85", "\xa0", " ", "　"]
-INVISIBLE = ["\x00", "​", "‍", "\xad", "﻿", "́", "\ud800"]
+WS = [" ", "\t", "\n", "\r\n", "\x0b", "\x0c", "\x1c", "\x85", "\xa0", "\u2028", "\u3000"]
+INVISIBLE = ["\x00", "\u200b", "\u200d", "\xad", "\ufeff", "\u0301", "\ud800"]
 AFFIXES = [".0", "0", ".", ".0.0", "00", "_", "s", "-", "1", ".1", "/", ":", "x", "%"]
 
 
@@ -734,7 +770,7 @@ NORMALISERS = {
     "strip()": lambda k: k.strip(),
     "rstrip()": lambda k: k.rstrip(),
     "lstrip()": lambda k: k.lstrip(),
-    "strip(whitespace, NUL, BOM)": lambda k: k.strip(" \t\r\n\x00﻿"),
+    "strip(whitespace, NUL, BOM)": lambda k: k.strip(" \t\r\n\x00\ufeff"),
     "C string": lambda k: k.split("\x00")[0],
     "first line": lambda k: (k.splitlines() or [""])[0],
     "first word": lambda k: (k.split() or [""])[0],
@@ -749,7 +785,7 @@ NORMALISERS = {
     "NFKD": _norm("NFKD"),
     "NFKC casefold": lambda k: unicodedata.normalize("NFKC", k).casefold(),
     "strip accents": _strip_accents,
-    "drop invisible": lambda k: re.sub("[\x00​‍\xad﻿]", "", k),
+    "drop invisible": lambda k: re.sub("[\x00\u200b\u200d\xad\ufeff]", "", k),
     "ascii ignore": lambda k: k.encode("ascii", "ignore").decode(),
     "ascii replace": lambda k: k.encode("ascii", "replace").decode(),
     "latin-1 replace": lambda k: k.encode("latin-1", "replace").decode("latin-1"),
@@ -808,7 +844,7 @@ def variants(k):
     for form in ("NFC", "NFD", "NFKC", "NFKD"):
         out.append(unicodedata.normalize(form, k))
     out += [_fullwidth(k), _strip_accents(k), k.encode("ascii", "ignore").decode(), k.encode("ascii", "replace").decode()]
-    for a, b in (("k", "K"), ("s", "ſ"), ("i", "ı"), ("I", "İ"), ("ss", "ß"), ("fi", "ﬁ"), ("e", "é"), ("e", "é"), ("a", "а"), ("1", "١"), ("0", "０")):
+    for a, b in (("k", "\u212a"), ("s", "\u017f"), ("i", "\u0131"), ("I", "\u0130"), ("ss", "\xdf"), ("fi", "\ufb01"), ("e", "\xe9"), ("e", "e\u0301"), ("a", "\u0430"), ("1", "\u0661"), ("0", "\uff10")):
         if a in k:
             out.append(k.replace(a, b, 1))
     for n in (4, 8, 16, 24, 31, 32):
@@ -974,26 +1010,68 @@ def run_sweep(ctx, keys, names, pairs):
         ops.append(("del", 0, k))
     for n, k in enumerate(dele[::4]):
         ops.append(("save", 0, {k: ("10.8.8.8", n)}))
-    sink = Sink()
-    o = run_sequence(ctx, ops, pairs, "ok", watch=order, tag="keys:sweep", oracle_ctx=sink)
-    assert o
+    run_long(ctx, ops, pairs, order, "keys:sweep", keys)
     ctx.count("keys:sweep-names", len(order))
     ctx.count("keys:sweep-operations", len(ops))
     ctx.case(("keys:sweep", len(order), len(ops)), sample={"class": "keys:sweep", "names": len(order), "operations": len(ops)})
-    if sink.failures:
-        before = len(ctx.failures)
+
+
+def shrink(ops, keep, test, max_runs=150):
+    """delta debugging on the operations after the first `keep`: drop chunks while `test` still fails"""
+    head, body = list(ops[:keep]), list(ops[keep:])
+    n, runs = 2, 0
+    while len(body) >= 2 and runs < max_runs:
+        chunk = -(-len(body) // n)
+        reduced = False
+        for i in range(0, len(body), chunk):
+            cand = body[:i] + body[i + chunk :]
+            runs += 1
+            if test(head + cand):
+                body, n, reduced = cand, max(n - 1, 2), True
+                break
+            if runs >= max_runs:
+                break
+        if not reduced:
+            if chunk == 1:
+                break
+            n = min(n * 2, len(body))
+    return head + body
+
+
+def run_long(ctx, ops, pairs, watch, tag, keys=None):
+    """a long history on two records.  Its verdicts are collected first; if there are any they are reduced before being
+    reported: to histories on the two names involved, else by delta debugging of the failing prefix"""
+    sink = Sink()
+    o = run_sequence(ctx, ops, pairs, "ok", watch=watch, tag=tag, oracle_ctx=sink)
+    assert o
+    if not sink.failures:
+        return
+    for k, n in sink.hist.items():
+        ctx.count(k, n)
+    before = len(ctx.failures)
+    if keys is not None:
         todo = list(dict.fromkeys(tuple(sorted(p)) for p in o.suspects))[:12]
-        run_pairs(ctx, keys, pairs, todo, tag="keys:pair-from-sweep")
-        if len(ctx.failures) == before:  # not reproducible on two names alone: report the long history
-            for f in sink.failures[:3]:
-                ctx.fail(f["kind"], f["input"], f["what"], expected=f["expected"], actual=f["actual"])
-        for k, n in sink.hist.items():
-            ctx.count(k, n)
+        run_pairs(ctx, keys, pairs, todo, tag=tag + ":two-names")
+    if len(ctx.failures) == before:
+        first = sink.failures[0]
+        prefix = [op_unjson(x) for x in first["input"]["history"]]
+        named = [k for op in prefix[-1:] for k in named_keys(op)]
+        small_watch = list(dict.fromkeys(named + list(watch)[:8]))
+
+        def test(cand):
+            t = Sink()
+            return bool(run_sequence(t, cand, None, "ok", watch=small_watch, oracle_ctx=t)) and any(f["kind"] == first["kind"] for f in t.failures)
+
+        small = shrink(prefix, 2, test) if len(prefix) <= 3000 else prefix
+        run_sequence(ctx, small, None, "ok", watch=small_watch, tag=tag + ":reduced")
+    if len(ctx.failures) == before:  # not reproducible in a reduced form: report the long history
+        for f in sink.failures[:3]:
+            ctx.fail(f["kind"], f["input"], f["what"], expected=f["expected"], actual=f["actual"])
 
 
 # values: what a patch gives is what is stored (no trimming, folding, clamping, truncation)
 SPECIAL_VALUES = [
-    " ab ", "ab\x00", "Ab", "AB\n", "\r\nAB", "é", "é", "﻿x", "\ud800", "\U0001f4fb", "x" * 300, "0", "None",
+    " ab ", "ab\x00", "Ab", "AB\n", "\r\nAB", "e\u0301", "\xe9", "\ufeffx", "\ud800", "\U0001f4fb", "x" * 300, "0", "None",
     2**31 - 1, 2**31, 2**32, 2**63, 2**64 - 1, 2**70, 10**30, 65536, 16777216,
     ("10.0.0.1", 65535), ("::1", 0), (" 10.0.0.1", 50000), ("", 65536), ("x" * 300, 2**40),
     _uuid.UUID(int=2**128 - 1), _uuid.UUID(int=1),
@@ -1005,7 +1083,7 @@ ADDRESS_FAMILY = [
     ("10.0.0.1", 50000), ("10.0.0.01", 50000), ("010.0.0.1", 50000), (" 10.0.0.1", 50000), ("10.0.0.1 ", 50000), ("10.0.0.1.", 50000),
     ("10.0.0.10", 50000), ("10.0.0.1", 50000 + 65536), ("10.0.0.1", 5000), ("10.0.0.1", 500000), ("10.0.0.1", 0), ("10.0.0.1\x00", 50000),
     ("::1", 50000), ("0:0:0:0:0:0:0:1", 50000), ("::ffff:10.0.0.1", 50000), ("::FFFF:10.0.0.1", 50000), ("localhost", 50000), ("LOCALHOST", 50000),
-    ("localhost.", 50000), ("", 50000), ("１０.0.0.1", 50000), ("10.0.0.1%eth0", 50000), ("167772161", 50000), ("0x0a000001", 50000),
+    ("localhost.", 50000), ("", 50000), ("\uff11\uff10.0.0.1", 50000), ("10.0.0.1%eth0", 50000), ("167772161", 50000), ("0x0a000001", 50000),
 ]
 
 DEFAULT_POOL = {
@@ -1065,6 +1143,7 @@ def random_op(rng, sut, stream, pool=DEFAULT_POOL):
 
 def run_random(ctx, length, pairs, stream, pool=DEFAULT_POOL, tag="random", watch=()):
     """`pairs` None: oracle only (values outside the model's alphabet)"""
+    enough(ctx)
     sut = Sut()
     try:
         history = []
@@ -1113,8 +1192,7 @@ def run_wide(ctx, pairs):
     ops += [("mi", A0, False, {f"w{n}": n for n in range(1100)})]  # one patch with more than a thousand entries
     for n in range(400):
         ops.append(("patch", n % 2, {"counter": n}))
-    ok = run_sequence(ctx, ops, pairs, "ok", watch=["attr000", "attr001", "attr013", "attr299", "counter", "wide", "w0", "w1023", "w1024", "w1099"], tag="wide")
-    assert ok
+    run_long(ctx, ops, pairs, ["attr000", "attr001", "attr013", "attr299", "counter", "wide", "w0", "w1023", "w1024", "w1099"], "wide")
     ctx.count("wide:operations", len(ops))
     ctx.case(("wide", nkeys))
 
@@ -1149,7 +1227,7 @@ def scale_ops(shape, n, salt):
             p = {}
         yield ("mi", addr(i), True, p)
         if i % 13 == 5 or ((i + 1) & i) == 0 or (i + 1) % 1000 == 0:
-            for j in dict.fromkeys([0, rng.choice([1, 2, i // 2, i, max(i - 1, 0)]), rng.randrange(i + 1)]):
+            for j in dict.fromkeys([0, min(i, rng.choice([1, 2, i // 2, i, max(i - 1, 0)])), rng.randrange(i + 1)]):
                 c = rng.randrange(9)
                 if c == 0:
                     yield ("mi", addr(j), True, {"m": i})
@@ -1270,6 +1348,8 @@ class ScaleOracle:
             return
         n1 = len(self.fields)
         if len(sut.storage) != n1:
+            if len(sut.storage) < n1:
+                self.full()  # says which records left the storage
             kind = "creation-rule" if n1 != n0 else "lookup-grew-storage" if len(sut.storage) > n1 else "record-lost"
             self.fail(kind, f"operation {self.t} {op[0]}: len(storage) with {n1} records created by auto-creating lookups of pairwise distinct addresses", expected=n1, actual=len(sut.storage))
             return
@@ -1283,7 +1363,7 @@ class ScaleOracle:
         self.t += 1
 
 
-def run_scale(ctx, shape, n, salt, pairs, with_model, upto=None, verbose=None):
+def run_scale(ctx, shape, n, salt, pairs, with_model, upto=None, verbose=None, clock=False):
     """returns the failure (kind, what, expected, actual) or None"""
     sut = Sut()
     try:
@@ -1305,18 +1385,77 @@ def run_scale(ctx, shape, n, salt, pairs, with_model, upto=None, verbose=None):
         if ctx is not None:
             ctx.count(f"scale:{shape}:records", len(oracle.fields))
             ctx.count(f"scale:{shape}:operations", oracle.t)
-            ctx.count("scale:records-max", max(0, len(oracle.fields) - ctx.hist.get("scale:records-max", 0)))
+            ctx.hist["scale:records-max"] = max(len(oracle.fields), ctx.hist.get("scale:records-max", 0))
             ctx.case(("scale", shape, n, salt), sample={"class": "scale", "shape": shape, "records": len(oracle.fields), "operations": oracle.t, "model": bool(with_model)})
             if oracle.failure:
                 kind, what, expected, actual = oracle.failure
                 ctx.count(f"oracle-failure:{kind}")
-                ctx.fail(kind, {"stream": "scale", "shape": shape, "n": n, "salt": salt, "upto": oracle.t}, what, expected=expected, actual=actual)
+                ctx.fail(kind, {"stream": "scale", "shape": shape, "n": n, "salt": salt, "upto": oracle.t, "clock": clock}, what, expected=expected, actual=actual)
             elif with_model:
                 local.append(("dump", sut.dump()))
                 pairs.extend(local)
         return oracle.failure
     finally:
         sut.close()
+
+
+def run_unreferenced(ctx, n):
+    """the caller keeps NO reference to the records (only addresses, ids and what it stored), the garbage collector
+    runs, then every record is looked up again: the storage itself has to keep them"""
+    import gc
+
+    from okdmr.dmrlib.storage.repeater_storage import RepeaterStorage
+
+    st = RepeaterStorage()
+    want = {}
+    for i in range(n):
+        a = (f"10.7.{i >> 8}.{i & 255}", 40000 + i % 3)
+        r = st.match_incoming(a, True, {"k": i} if i % 2 else {})
+        if i % 3 == 0:
+            r.attr("n", f"v{i}")
+        want[a] = (r.id, i if i % 2 else None, f"v{i}" if i % 3 == 0 else None)
+        del r
+    gc.collect()
+    inp = {"stream": "unreferenced", "n": n}
+    if len(st) != n:
+        ctx.count("oracle-failure:record-lost")
+        ctx.fail("record-lost", inp, f"len(storage) after {n} auto-creating lookups of distinct addresses whose results the caller dropped, and a garbage collection", expected=n, actual=len(st))
+        return
+    for a, (rid, k, v) in want.items():
+        r = st.match_incoming(fresh(a), False)
+        got = None if r is None else (r.id, r.attr("k"), r.attr("n"))
+        if got != (rid, k, v):
+            ctx.count("oracle-failure:identity-changed")
+            ctx.fail("identity-changed", inp, f"record of {a}: id / attributes after the caller dropped its reference and the garbage collector ran", expected=str((rid, k, v)), actual=str(got))
+            return
+    ctx.count("unreferenced:records", n)
+    ctx.case(("unreferenced", n))
+
+
+class FastClock:
+    """every reading of the clock is a day later than the previous one (time.time, monotonic, perf_counter and their _ns
+    forms; in this process, for the duration of one stream): ageing out a record is a way of losing it"""
+
+    NAMES = ["time", "monotonic", "perf_counter", "time_ns", "monotonic_ns", "perf_counter_ns"]
+
+    def __enter__(self):
+        import time
+
+        self.time = time
+        self.saved = {n: getattr(time, n) for n in self.NAMES}
+        self.now = time.time()
+
+        def tick():
+            self.now += 86400.0
+            return self.now
+
+        for n in self.NAMES:
+            setattr(time, n, (lambda: int(tick() * 1e9)) if n.endswith("_ns") else tick)
+        return self
+
+    def __exit__(self, *a):
+        for n, f in self.saved.items():
+            setattr(self.time, n, f)
 
 
 # historically interesting inputs first (none of them fails on the unchanged tree)
@@ -1334,6 +1473,20 @@ CORPUS = [
 ]
 
 
+ENOUGH = 120
+
+
+class Enough(Exception):
+    pass
+
+
+def enough(ctx):
+    """the search stops once this many failing inputs are recorded (the first, shortest ones are reported): a change that
+    breaks nearly every history would otherwise be searched at full (boosted) budget for nothing"""
+    if len(getattr(ctx, "failures", ())) >= ENOUGH:
+        raise Enough()
+
+
 def flush(ctx, component, pairs):
     if pairs and not ctx.search_only and ctx.driver_ok:
         ctx.correspond(component, pairs)
@@ -1346,6 +1499,8 @@ def run(ctx):
     logging.disable(logging.CRITICAL)  # the storage logs a critical line per duplicate match
     try:
         _run(ctx)
+    except Enough:
+        ctx.notes.append(f"search stopped after {len(ctx.failures)} failing inputs")
     finally:
         logging.disable(logging.NOTSET)
 
@@ -1364,7 +1519,7 @@ def _run(ctx):
         "random histories run over clusters of look-alike names; special VALUES (white space, NUL, Unicode forms, huge ints, "
         "300-character strings; negative ints/floats/bytes/lists oracle-only); look-alike ADDRESSES (leading zeros, case, white "
         "space, port mod 65536, IPv6 spellings); WIDE records (300 attributes, a patch of 1100 entries, 5000-character values); "
-        "SCALE: 1500 records in quick / 20000 in thorough (distinct IPs, one IP with many ports, mixed; identified fraction 0 … 1), "
+        "SCALE: 1500 records in quick / 20000 in thorough (distinct IPs, one IP with many ports, mixed; identified fraction 0 ... 1), "
         "lookups of the oldest / middle / newest records interleaved and at the end, full comparison of every record at powers "
         "of two and every 500 records. Stream 'ok' respects the two preconditions of the theorems (no patch assigns id; "
         "address_in is only assigned a value no other record holds) and is checked against the property as stated (incl. "
@@ -1412,7 +1567,8 @@ def _run(ctx):
     flush(ctx, "storage.keys", pairs)
     # ---- the sweep: every library name, its collision partners, and a sample of the rest of the universe, on one record
     first = list(dict.fromkeys(keys.base + [p for b in keys.base for p in keys.partners.get(b, [])]))
-    rest = [k for k in keys.universe if k not in set(first)]
+    first_set = set(first)
+    rest = [k for k in keys.universe if k not in first_set]
     nsweep = budget(900, 6000, 1800)
     names = first[:nsweep] + rng.sample(rest, max(0, min(len(rest), nsweep - len(first[:nsweep]))))
     run_sweep(ctx, keys, names, pairs)
@@ -1437,9 +1593,20 @@ def _run(ctx):
     for i in range(budget(60, 1500, 180)):
         pool = {"addrs": rng.sample(ADDRESS_FAMILY, 5), "vals": DEFAULT_POOL["vals"], "dyn": DEFAULT_POOL["dyn"]}
         run_random(ctx, rng.choice([8, 20, 50]), pairs, "ok", pool, tag="addresses:look-alike")
-    run_sequence(ctx, [("mi", a, True, {"k": n}) for n, a in enumerate(ADDRESS_FAMILY)] + [("mi", a, False, {}) for a in ADDRESS_FAMILY], pairs, "ok", tag="addresses:look-alike")
+    ok = run_sequence(ctx, [("mi", a, True, {"k": n}) for n, a in enumerate(ADDRESS_FAMILY)] + [("mi", a, False, {}) for a in ADDRESS_FAMILY], pairs, "ok", tag="addresses:look-alike")
+    assert ok
     ctx.case(("addresses:all", len(ADDRESS_FAMILY)))
     flush(ctx, "storage.addresses", pairs)
+    # ---- time passes (a day per reading of the clock) / the caller keeps no reference to the records
+    with FastClock():
+        for seq in CORPUS:
+            ok = run_sequence(ctx, seq, pairs, "ok", tag="clock")
+            assert ok
+        for i in range(budget(25, 400, 60)):
+            run_random(ctx, rng.choice([20, 60]), pairs, "ok", tag="clock")
+        run_scale(ctx, "mixed", 300, ctx.seed, pairs, False, clock=True)
+    flush(ctx, "storage.clock", pairs)
+    run_unreferenced(ctx, 200 if quick else 3000)
     # ---- wide records
     run_wide(ctx, pairs)
     flush(ctx, "storage.wide", pairs)
@@ -1518,9 +1685,23 @@ def replay(obj):
     import logging
 
     logging.disable(logging.CRITICAL)
+    inp = (obj.get("failure") or {}).get("input") or {}
+    if inp.get("class") == "clock" or inp.get("clock"):
+        with FastClock():
+            return _replay(obj)
+    return _replay(obj)
+
+
+def _replay(obj):
     f = obj.get("failure") or {}
     inp = f.get("input") or {}
     print(json.dumps(obj.get("type")), f.get("what"))
+    if inp.get("stream") == "unreferenced":
+        c = Sink()
+        run_unreferenced(c, inp["n"])
+        for k in c.failures:
+            print("property check:", (k["kind"], k["what"], k["expected"], k["actual"]))
+        return 1 if c.failures else 0
     if inp.get("stream") == "scale":
         verbose = []
         failure = run_scale(None, inp["shape"], inp["n"], inp["salt"], [], False, upto=inp.get("upto"), verbose=verbose)
